@@ -67,6 +67,10 @@ def gen_dir_model(rng, u, n, reg=(), bmc_style=False, small=True, fixtures=True,
                           creator=rng.choice("OOOBMH"))
         if pel.eid in eids or pel.plid in eids or pel.bmcid in eids:
             continue
+        if len(pel.sections) > 1 and pel.sections[0].sid == b"PS" and rng.random() < 0.25:
+            # a primary SRC that is not the third section of the log
+            ps = pel.sections.pop(0)
+            pel.sections.insert(rng.randrange(1, len(pel.sections) + 1), ps)
         eids.update((pel.eid, pel.plid, pel.bmcid))
         pels.append(pel)
     names = gen_names(rng, n, bmc_style, [p.eid for p in pels])
